@@ -240,6 +240,7 @@ package nutsdb
 //@   ensures fresh(result)
 //@   modifies nothing
 //@ func Open
+//@   requires zset.zsHeap()
 //@   ensures[C22] result1 == nil ==> !modeMismatch(opt.EntryIdxMode, opt.Dir)
 //@   ensures[C22] modeMismatch(opt.EntryIdxMode, opt.Dir) && dirListable(opt.Dir) ==> result1 != nil && result0 == nil && fsMut <= old(fsMut) + 1
 //@   modifies everything
@@ -402,24 +403,39 @@ package nutsdb
 //@   safety[C20] panics
 
 //@ func Tx.buildSortedSetIdx
-//@   assumed commit-time applier of sorted-set records (ds/zset is not yet under contract)
-//@   requires tx != nil && tx.db != nil && entry != nil && entry.Meta != nil
+//@   requires tx != nil && tx.db != nil && zsetsOK(tx.db) && entry != nil && entry.Meta != nil && entry.Meta.ds == DataStructureSortedSet && recShape(entry)
 //@   requires[C14] lockMode == 2
 //@   at entry: bump idxMut
 //@   ensures idxMut == old(idxMut) + 1
-//@   modifies entries(tx.db.SortedSetIdx), alltype(zset.SortedSet), alltype(zset.SortedSetNode), idxMut
-//@ spec func applicable(db *DB) bool = setsOK(db) && listsOK(db) && db.SortedSetIdx != nil
+//@   ensures[C07] tx.db.SortedSetIdx != nil && has(tx.db.SortedSetIdx, bucket) && (old(has(tx.db.SortedSetIdx, bucket)) ==> tx.db.SortedSetIdx[bucket] == old(tx.db.SortedSetIdx[bucket]))
+//@   ensures[C07] zset.zsHeap()
+//@   ensures[C07] zsetLocal(tx.db.SortedSetIdx[bucket])
+//@   ensures[C04] otherZsets(tx.db, bucket)
+//@   ensures zsetsOK(tx.db)
+//@   at return: assume forall b string :: b != bucket && has(tx.db.SortedSetIdx, b) ==> zsetLocal(tx.db.SortedSetIdx[b])
+//@   at call GetByRankRange: assume 0 <= tx.db.SortedSetIdx[bucket].length && tx.db.SortedSetIdx[bucket].length < 2147483648
+//@   at call Put: assert[C07,C08] entry.Meta.Flag == DataZAddFlag && $arg0 == tx.db.SortedSetIdx[bucket] && $arg3 == entry.Value &&
+//@        (forall k string, sc float64 :: !strContains(k, SeparatorForZSetKey) && string(entry.Key) == concat(concat(k, SeparatorForZSetKey), ftoa(sc)) ==> $arg1 == k && $arg2 == sc)
+//@   at call Remove: assert[C07,C08] entry.Meta.Flag == DataZRemFlag && $arg0 == tx.db.SortedSetIdx[bucket] && $arg1 == string(entry.Key)
+//@   at call GetByRankRange: assert[C07,C08] entry.Meta.Flag == DataZRemRangeByRankFlag && $arg0 == tx.db.SortedSetIdx[bucket] && $arg3 &&
+//@        (forall a int64, b int64 :: string(entry.Key) == itoa(a) && string(entry.Value) == itoa(b) ==> $arg1 == a && $arg2 == b)
+//@   at call PopMax: assert[C07,C08,C13] entry.Meta.Flag == DataZPopMaxFlag && $arg0 == tx.db.SortedSetIdx[bucket]
+//@   at call PopMin: assert[C07,C08,C13] entry.Meta.Flag == DataZPopMinFlag && $arg0 == tx.db.SortedSetIdx[bucket]
+//@   modifies entries(tx.db.SortedSetIdx), alltype(zset.SortedSet), all(zset.SortedSetNode.backward), all(zset.SortedSetNode.Value), idxMut,
+//@        allelems(tx.db.SortedSetIdx[bucket].header.level), allentries(tx.db.SortedSetIdx[bucket].Dict)
+//@   safety[C20] panics
+//@ spec func applicable(db *DB) bool = setsOK(db) && listsOK(db) && zsetsOK(db)
 //@ func Tx.buildIdxes
 //@   requires tx != nil && tx.db != nil && applicable(tx.db) && 0 <= writesLen && writesLen <= len(tx.pendingWrites)
 //@   requires forall k int :: 0 <= k && k < len(tx.pendingWrites) ==> tx.pendingWrites[k] != nil && tx.pendingWrites[k].Meta != nil && recShape(tx.pendingWrites[k])
 //@   requires[C14] lockMode == 2
 //@   ensures[C12] tx.db.KeyCount == old(tx.db.KeyCount) + writesLen
 //@   ensures applicable(tx.db) && idxMut >= old(idxMut)
-//@   modifies tx.db.KeyCount, entries(tx.db.SetIdx), entries(tx.db.ListIdx), entries(tx.db.SortedSetIdx), alltype(zset.SortedSet), alltype(zset.SortedSetNode), idxMut,
+//@   modifies tx.db.KeyCount, entries(tx.db.SetIdx), entries(tx.db.ListIdx), entries(tx.db.SortedSetIdx), alltype(zset.SortedSet), all(zset.SortedSetNode.backward), all(zset.SortedSetNode.Value), allelems(tx.db.SortedSetIdx[""].header.level), allentries(tx.db.SortedSetIdx[""].Dict), idxMut,
 //@        allentries(tx.db.SetIdx[""].M), allentries(tx.db.SetIdx[""].M[""]), allentries(tx.db.ListIdx[""].Items), allelems(tx.db.ListIdx[""].Items[""])
 //@   safety[C20] panics
 //@   loops 1
-//@   loop 1: modifies tx.db.KeyCount, entries(tx.db.SetIdx), entries(tx.db.ListIdx), entries(tx.db.SortedSetIdx), alltype(zset.SortedSet), alltype(zset.SortedSetNode), idxMut,
+//@   loop 1: modifies tx.db.KeyCount, entries(tx.db.SetIdx), entries(tx.db.ListIdx), entries(tx.db.SortedSetIdx), alltype(zset.SortedSet), all(zset.SortedSetNode.backward), all(zset.SortedSetNode.Value), allelems(tx.db.SortedSetIdx[""].header.level), allentries(tx.db.SortedSetIdx[""].Dict), idxMut,
 //@        allentries(tx.db.SetIdx[""].M), allentries(tx.db.SetIdx[""].M[""]), allentries(tx.db.ListIdx[""].Items), allelems(tx.db.ListIdx[""].Items[""])
 //@   loop 1: invariant 0 <= i && i <= writesLen && tx == old(tx) && tx.db == old(tx.db) && writesLen == old(writesLen) && tx.pendingWrites == old(tx.pendingWrites) && lockMode == 2
 //@   loop 1: invariant applicable(tx.db) && idxMut >= old(idxMut) && tx.db.KeyCount == old(tx.db.KeyCount) + i
@@ -552,9 +568,26 @@ package nutsdb
 //@   ensures r.H == old(r.H) && r.H.meta == old(r.H.meta) && r.H.meta.txID == old(r.H.meta.txID) && r.H.meta.ds == old(r.H.meta.ds)
 //@   modifies alltype(BPTree), alltype(Node), alltype(Record), elems(r.H.meta.bucket)
 //@ func DB.buildSortedSetIdx
-//@   assumed open-time applier of sorted-set records (ds/zset is not yet under contract)
-//@   requires db != nil && r != nil && r.H != nil && r.H.meta != nil
-//@   modifies entries(db.SortedSetIdx), alltype(zset.SortedSet), alltype(zset.SortedSetNode)
+//@   requires db != nil && zsetsOK(db) && r != nil && r.H != nil && r.H.meta != nil && r.H.meta.ds == DataStructureSortedSet
+//@   ensures[C07] db.SortedSetIdx != nil && has(db.SortedSetIdx, bucket) && (old(has(db.SortedSetIdx, bucket)) ==> db.SortedSetIdx[bucket] == old(db.SortedSetIdx[bucket]))
+//@   ensures[C07] zset.zsHeap()
+//@   ensures[C07] zsetLocal(db.SortedSetIdx[bucket])
+//@   ensures[C04] otherZsets(db, bucket)
+//@   ensures zsetsOK(db)
+//@   ensures[C08,C19] r.E == nil ==> result == ErrEntryIdxModeOpt
+//@   ensures[C08,C09] r.E != nil ==> result == nil
+//@   at return: assume forall b string :: b != bucket && has(db.SortedSetIdx, b) ==> zsetLocal(db.SortedSetIdx[b])
+//@   at call GetByRankRange: assume 0 <= db.SortedSetIdx[bucket].length && db.SortedSetIdx[bucket].length < 2147483648
+//@   at call Put: assert[C07,C08] r.H.meta.Flag == DataZAddFlag && $arg0 == db.SortedSetIdx[bucket] && $arg3 == r.E.Value &&
+//@        (forall k string, sc float64 :: !strContains(k, SeparatorForZSetKey) && string(r.E.Key) == concat(concat(k, SeparatorForZSetKey), ftoa(sc)) ==> $arg1 == k && $arg2 == sc)
+//@   at call Remove: assert[C07,C08] r.H.meta.Flag == DataZRemFlag && $arg0 == db.SortedSetIdx[bucket] && $arg1 == string(r.E.Key)
+//@   at call GetByRankRange: assert[C07,C08] r.H.meta.Flag == DataZRemRangeByRankFlag && $arg0 == db.SortedSetIdx[bucket] && $arg3 &&
+//@        (forall a int64, b int64 :: string(r.E.Key) == itoa(a) && string(r.E.Value) == itoa(b) ==> $arg1 == a && $arg2 == b)
+//@   at call PopMax: assert[C07,C08,C13] r.H.meta.Flag == DataZPopMaxFlag && $arg0 == db.SortedSetIdx[bucket]
+//@   at call PopMin: assert[C07,C08,C13] r.H.meta.Flag == DataZPopMinFlag && $arg0 == db.SortedSetIdx[bucket]
+//@   modifies entries(db.SortedSetIdx), alltype(zset.SortedSet), all(zset.SortedSetNode.backward), all(zset.SortedSetNode.Value),
+//@        allelems(db.SortedSetIdx[bucket].header.level), allentries(db.SortedSetIdx[bucket].Dict)
+//@   safety[C20] panics
 //@ func DB.buildOtherIdxes
 //@   requires db != nil && applicable(db) && r != nil && r.H != nil && r.H.meta != nil
 //@   ensures applicable(db)
@@ -562,7 +595,7 @@ package nutsdb
 //@   at call buildSetIdx: assert[C06,C08] r.H.meta.ds == DataStructureSet && $arg1 == bucket && $arg2 == r
 //@   at call buildListIdx: assert[C05,C08] r.H.meta.ds == DataStructureList && $arg1 == bucket && $arg2 == r
 //@   at call buildSortedSetIdx: assert[C07,C08] r.H.meta.ds == DataStructureSortedSet && $arg1 == bucket && $arg2 == r
-//@   modifies entries(db.SetIdx), entries(db.ListIdx), entries(db.SortedSetIdx), alltype(zset.SortedSet), alltype(zset.SortedSetNode),
+//@   modifies entries(db.SetIdx), entries(db.ListIdx), entries(db.SortedSetIdx), alltype(zset.SortedSet), all(zset.SortedSetNode.backward), all(zset.SortedSetNode.Value), allelems(db.SortedSetIdx[""].header.level), allentries(db.SortedSetIdx[""].Dict),
 //@        allentries(db.SetIdx[""].M), allentries(db.SetIdx[""].M[""]), allentries(db.ListIdx[""].Items), allelems(db.ListIdx[""].Items[""])
 //@   safety[C20] panics
 //@ func DB.buildBPTreeRootIdxes
@@ -1256,3 +1289,166 @@ package nutsdb
 //@           $arg1 == k && $arg2 == i && $arg3 == j)
 //@   modifies entries(db.ListIdx), allentries(db.ListIdx[bucket].Items), allelems(db.ListIdx[bucket].Items[string(r.E.Key)])
 //@   safety[C20] panics
+
+// ---------------------------------------------------------------------------
+// Sorted sets: transactional API and appliers (C07, C08, C12, C13, C20)
+//@ spec func ftoa(f float64) string
+//@ spec func atofOK(s string) bool
+//@ spec func atof(s string) float64
+//@ spec axiom ftoaInv: forall f float64 :: atofOK(ftoa(f)) && atof(ftoa(f)) == f && !strContains(ftoa(f), SeparatorForZSetKey)
+//@ extern strconv.FormatFloat (f, fmt, prec, bitSize) (s)
+//@   ensures fmt == 102 && prec == -1 && bitSize == 64 ==> s == ftoa(f)
+//@   modifies nothing
+//@   pure
+//@ extern github.com/xujiajun/utils/strconv2.StrToFloat64 (val) (f, err)
+//@   ensures (err == nil <==> atofOK(val)) && (err == nil ==> f == atof(val))
+//@   modifies nothing
+//@   pure
+//@ func ErrSeparatorForZSetKey
+//@   ensures result != nil
+//@   modifies nothing
+
+//@ spec func zsetLocal(ss *zset.SortedSet) bool = ss != nil && ss.header != nil && 1 <= ss.level && ss.level <= zset.SkipListMaxLevel && len(ss.header.level) == zset.SkipListMaxLevel &&
+//@        ss.Dict != nil && zset.noHdr(ss) && zset.dictOK(ss)
+//@ spec func zsetsOK(db *DB) bool = db.SortedSetIdx != nil && zset.zsHeap() && (forall b string :: has(db.SortedSetIdx, b) ==> zsetLocal(db.SortedSetIdx[b]))
+//@ spec func otherZsets(db *DB, bucket string) bool = forall b string :: b != bucket ==> has(db.SortedSetIdx, b) == old(has(db.SortedSetIdx, b)) && db.SortedSetIdx[b] == old(db.SortedSetIdx[b])
+
+//@ spec func txOKz(tx *Tx) bool = txOK(tx) && (tx.db != nil ==> zsetsOK(tx.db))
+//@ spec func zsetOf(tx *Tx, bucket string) *zset.SortedSet = tx.db.SortedSetIdx[bucket]
+
+//@ func Tx.ZAdd
+//@   requires txOKz(tx)
+//@   ensures[C12,C20] result != nil ==> samePending(tx)
+//@   ensures[C12,C20] old(tx.db) == nil ==> result != nil
+//@   ensures[C07,C13] !old(refuses(tx, key)) && !strContains(string(key), SeparatorForZSetKey) ==> result == nil
+//@   ensures[C07,C08] result == nil ==> appended(tx, 1) && !strContains(string(key), SeparatorForZSetKey) &&
+//@        tx.pendingWrites[old(len(tx.pendingWrites))].Meta.Flag == DataZAddFlag && tx.pendingWrites[old(len(tx.pendingWrites))].Meta.ds == DataStructureSortedSet &&
+//@        tx.pendingWrites[old(len(tx.pendingWrites))].Value == val &&
+//@        string(tx.pendingWrites[old(len(tx.pendingWrites))].Key) == concat(concat(string(key), SeparatorForZSetKey), ftoa(score))
+//@   ensures pendingOK(tx)
+//@   modifies[C07,C08,C12] tx.pendingWrites, elems(tx.pendingWrites)
+//@   safety[C20] panics
+
+//@ func Tx.ZMembers
+//@   requires txOKz(tx)
+//@   ensures[C12,C20] tx.db == nil ==> result1 == ErrTxClosed
+//@   ensures[C07] result1 == nil ==> has(tx.db.SortedSetIdx, bucket) && result0 == zsetOf(tx, bucket).Dict
+//@   ensures[C07] tx.db != nil && !has(tx.db.SortedSetIdx, bucket) ==> result1 == ErrBucket
+//@   modifies[C07,C08,C12] nothing
+//@   safety[C20] panics
+//@ func Tx.ZCard
+//@   requires txOKz(tx)
+//@   ensures[C12,C20] tx.db == nil ==> result1 == ErrTxClosed
+//@   ensures[C07] result1 == nil ==> has(tx.db.SortedSetIdx, bucket) && result0 == len(zsetOf(tx, bucket).Dict)
+//@   modifies[C07,C08,C12] nothing
+//@   safety[C20] panics
+//@ func Tx.ZCount
+//@   requires txOKz(tx)
+//@   ensures[C12,C20] tx.db == nil ==> result1 == ErrTxClosed
+//@   modifies[C07,C08,C12] nothing
+//@   safety[C20] panics
+//@ func Tx.ZPeekMax
+//@   requires txOKz(tx)
+//@   ensures[C12,C20] tx.db == nil ==> result1 == ErrTxClosed
+//@   ensures[C07] result1 == nil ==> has(tx.db.SortedSetIdx, bucket) && result0 == zsetOf(tx, bucket).tail
+//@   modifies[C07,C08,C12] nothing
+//@   safety[C20] panics
+//@ func Tx.ZPeekMin
+//@   requires txOKz(tx)
+//@   ensures[C12,C20] tx.db == nil ==> result1 == ErrTxClosed
+//@   ensures[C07] result1 == nil ==> has(tx.db.SortedSetIdx, bucket) && result0 == zsetOf(tx, bucket).header.level[0].forward && result0 != zsetOf(tx, bucket).header
+//@   modifies[C07,C08,C12] nothing
+//@   safety[C20] panics
+//@ func Tx.ZPopMax
+//@   requires txOKz(tx)
+//@   ensures[C12,C20] old(tx.db) == nil ==> result1 == ErrTxClosed
+//@   ensures[C12] result1 != nil ==> samePending(tx)
+//@   ensures[C07,C13] result1 == nil ==> has(tx.db.SortedSetIdx, bucket) && result0 == zsetOf(tx, bucket).tail && appended(tx, 1) &&
+//@        tx.pendingWrites[old(len(tx.pendingWrites))].Meta.Flag == DataZPopMaxFlag && tx.pendingWrites[old(len(tx.pendingWrites))].Meta.ds == DataStructureSortedSet
+//@   ensures pendingOK(tx)
+//@   modifies[C07,C08,C12] tx.pendingWrites, elems(tx.pendingWrites)
+//@   safety[C20] panics
+//@ func Tx.ZPopMin
+//@   requires txOKz(tx)
+//@   ensures[C12,C20] old(tx.db) == nil ==> result1 == ErrTxClosed
+//@   ensures[C12] result1 != nil ==> samePending(tx)
+//@   ensures[C07,C13] result1 == nil ==> has(tx.db.SortedSetIdx, bucket) && result0 == zsetOf(tx, bucket).header.level[0].forward && appended(tx, 1) &&
+//@        tx.pendingWrites[old(len(tx.pendingWrites))].Meta.Flag == DataZPopMinFlag && tx.pendingWrites[old(len(tx.pendingWrites))].Meta.ds == DataStructureSortedSet
+//@   ensures pendingOK(tx)
+//@   modifies[C07,C08,C12] tx.pendingWrites, elems(tx.pendingWrites)
+//@   safety[C20] panics
+//@ func Tx.ZRangeByScore
+//@   requires txOKz(tx)
+//@   ensures[C12,C20] tx.db == nil ==> result1 == ErrTxClosed
+//@   ensures[C07] result1 == nil ==> has(tx.db.SortedSetIdx, bucket) && (forall k int :: 0 <= k && k < len(result0) ==> result0[k] != nil && result0[k] != zsetOf(tx, bucket).header)
+//@   modifies[C07,C08,C12] nothing
+//@   safety[C20] panics
+//@ func Tx.ZRangeByRank
+//@   requires txOKz(tx)
+//@   at entry: assume tx.db != nil && has(tx.db.SortedSetIdx, bucket) ==> 0 <= zsetOf(tx, bucket).length && zsetOf(tx, bucket).length < 2147483648
+//@   ensures[C12,C20] tx.db == nil ==> result1 == ErrTxClosed
+//@   ensures[C07] result1 == nil ==> has(tx.db.SortedSetIdx, bucket) && (forall k int :: 0 <= k && k < len(result0) ==> result0[k] != nil && result0[k] != zsetOf(tx, bucket).header)
+//@   modifies[C07,C08,C12] nothing
+//@   safety[C20] panics
+//@ func Tx.ZRem
+//@   requires txOKz(tx)
+//@   ensures[C12,C20] old(tx.db) == nil ==> result == ErrTxClosed
+//@   ensures[C12] result != nil ==> samePending(tx)
+//@   ensures[C07,C08] result == nil ==> appended(tx, 1) && tx.pendingWrites[old(len(tx.pendingWrites))].Meta.Flag == DataZRemFlag &&
+//@        tx.pendingWrites[old(len(tx.pendingWrites))].Meta.ds == DataStructureSortedSet && string(tx.pendingWrites[old(len(tx.pendingWrites))].Key) == key
+//@   ensures pendingOK(tx)
+//@   modifies[C07,C08,C12] tx.pendingWrites, elems(tx.pendingWrites)
+//@   safety[C20] panics
+//@ func Tx.ZRemRangeByRank
+//@   requires txOKz(tx)
+//@   ensures[C12,C20] old(tx.db) == nil ==> result == ErrTxClosed
+//@   ensures[C12] result != nil ==> samePending(tx)
+//@   ensures[C07,C08] result == nil ==> appended(tx, 1) && tx.pendingWrites[old(len(tx.pendingWrites))].Meta.Flag == DataZRemRangeByRankFlag &&
+//@        tx.pendingWrites[old(len(tx.pendingWrites))].Meta.ds == DataStructureSortedSet &&
+//@        string(tx.pendingWrites[old(len(tx.pendingWrites))].Key) == itoa(start) && string(tx.pendingWrites[old(len(tx.pendingWrites))].Value) == itoa(end)
+//@   ensures pendingOK(tx)
+//@   modifies[C07,C08,C12] tx.pendingWrites, elems(tx.pendingWrites)
+//@   safety[C20] panics
+//@ func Tx.ZRank
+//@   requires txOKz(tx)
+//@   ensures[C12,C20] tx.db == nil ==> result1 == ErrTxClosed
+//@   modifies[C07,C08,C12] nothing
+//@   safety[C20] panics
+//@ func Tx.ZRevRank
+//@   requires txOKz(tx)
+//@   ensures[C12,C20] tx.db == nil ==> result1 == ErrTxClosed
+//@   modifies[C07,C08,C12] nothing
+//@   safety[C20] panics
+//@ func Tx.ZScore
+//@   requires txOKz(tx)
+//@   ensures[C12,C20] tx.db == nil ==> result1 == ErrTxClosed
+//@   ensures[C07] result1 == nil ==> has(tx.db.SortedSetIdx, bucket) && has(zsetOf(tx, bucket).Dict, string(key)) && result0 == zsetOf(tx, bucket).Dict[string(key)].score
+//@   modifies[C07,C08,C12] nothing
+//@   safety[C20] panics
+//@ func Tx.ZGetByKey
+//@   requires txOKz(tx)
+//@   ensures[C12,C20] tx.db == nil ==> result1 == ErrTxClosed
+//@   ensures[C07] result1 == nil ==> has(tx.db.SortedSetIdx, bucket) && has(zsetOf(tx, bucket).Dict, string(key)) && result0 == zsetOf(tx, bucket).Dict[string(key)]
+//@   modifies[C07,C08,C12] nothing
+//@   safety[C20] panics
+
+// ---------------------------------------------------------------------------
+// C13 client scenarios (verif_scenarios.go): verified against the contracts of the API methods only.
+// Their postconditions state read-your-writes inside one transaction; on the pinned tree they FAIL
+// (the API answers reads from the committed indexes and never consults pendingWrites) - listed as known findings.
+//@ func verifScenarioDoubleLPop
+//@   requires txOK(tx) && tx.db != nil && has(tx.db.ListIdx, bucket) && has(tx.db.ListIdx[bucket].Items, string(key)) && len(tx.db.ListIdx[bucket].Items[string(key)]) >= 2
+//@   requires string(tx.db.ListIdx[bucket].Items[string(key)][0]) != string(tx.db.ListIdx[bucket].Items[string(key)][1])
+//@   ensures[C13] err == nil ==> string(a) == string(old(tx.db.ListIdx[bucket].Items[string(key)][0]))
+//@   ensures[C13] err == nil ==> string(b) == string(old(tx.db.ListIdx[bucket].Items[string(key)][1]))
+//@   modifies everything
+//@ func verifScenarioPutThenGet
+//@   requires txOK(tx) && tx.db != nil && treesOK(tx.db) && tx.writable && len(key) > 0 && tx.db.opt.EntryIdxMode == HintKeyValAndRAMIdxMode
+//@   requires !has(tx.db.BPTreeIdx, bucket)
+//@   ensures[C13] len(tx.pendingWrites) > old(len(tx.pendingWrites)) ==> err == nil
+//@   modifies everything
+//@ func verifScenarioDoubleZPopMax
+//@   requires txOKz(tx) && tx.db != nil && tx.writable && has(tx.db.SortedSetIdx, bucket) && tx.db.SortedSetIdx[bucket].tail != nil
+//@   ensures[C13] err == nil ==> a == old(tx.db.SortedSetIdx[bucket].tail)
+//@   ensures[C13] err == nil ==> a != b
+//@   modifies everything
